@@ -328,6 +328,86 @@ def composite_streams(sl):
                                                                    outer.request_end == core.s_max(*[wire[n][1] for n in names])))
 
 
+def composite_failing_stream(sl):
+    """a sub-request of one stream fails (on-error=continue turns that into a failed sample of the composite) while a sibling stream is
+    at an arbitrary point: when the composite call is over, none of its wire requests is still on the wire - otherwise the logical request
+    is sampled before the latest end of the HTTP requests issued on its behalf (and they overlap the client's next request)"""
+    clock = Clock()
+    c = Client()
+    started, over, gates = [], [], {}
+
+    class Failure(Exception):
+        pass
+
+    class Sub:
+        def __init__(self, op):
+            pass
+
+        async def __call__(self, es_, params):
+            n = params["name"]
+            g = gates[n]
+            await g[0].wait()
+            es_["default"].on_request_start()
+            started.append(n)
+            try:
+                await g[1].wait()
+                es_["default"].on_request_end()
+            finally:
+                over.append(n)  # answered, failed or cancelled: no longer on the wire
+            if n == "fails":
+                raise Failure("503")
+            return {"weight": 1, "unit": "ops", "success": True}
+
+        async def __aenter__(self):
+            return self
+
+        async def __aexit__(self, *a):
+            return False
+
+    tail = [{"name": "after", "operation-type": "search"}] if sl["operation_after_the_streams"] else []
+    structure = [{"stream": [{"name": "fails", "operation-type": "search"}]}, {"stream": [{"name": "slow", "operation-type": "raw-request"}]}] + tail
+    order, verdict = [], {}
+
+    async def main():
+        for n in ("fails", "slow", "after"):
+            gates[n] = [asyncio.Event(), asyncio.Event()]
+        with c.new_request_context():
+            task = asyncio.create_task(runner.Composite()(c, {"requests": structure}))
+            await _settle()
+            pending = [("fails", 0), ("slow", 0)]
+            while pending and not task.done():
+                j = choose(len(pending), "next event")
+                n, g = pending.pop(j)
+                order.append((n, ("start", "end")[g]))
+                gates[n][g].set()
+                await _settle()
+                if g == 0:
+                    pending.append((n, 1))
+                    pending.sort()
+            await _settle()
+            verdict["done"] = task.done()
+            verdict["on_the_wire"] = [n for n in started if n not in over]
+            for n in gates:  # let whatever is left run out
+                for e in gates[n]:
+                    e.set()
+            try:
+                await task
+                verdict["outcome"] = "ret"
+            except Failure:
+                verdict["outcome"] = "failure"
+            except BaseException as e:  # noqa: BLE001
+                verdict["outcome"] = repr(e)
+
+    with shadowed(client_context, (), extra={"time": clock.time_ns()}), shadowed(runner, (), extra={"time": clock.time_ns(), "runner_for": Sub}):
+        _run(main)
+    core.note("event order", order)
+    core.note("verdict", verdict)
+    core.trace("events", len(order))
+    observe("the failure of the sub-request surfaces as the failure of the composite operation", verdict.get("outcome") == "failure")
+    if verdict.get("done"):
+        observe("when the composite operation is over none of its wire requests is still on the wire", verdict["on_the_wire"] == [])
+
+
 def composite_two_clients(sl):
     """two clients of one worker process run the SAME composite operation: one registered Composite runner object and one request
     structure (the parameter source's items) are shared by both, as in a real race; each client has its own Elasticsearch client object.
@@ -464,6 +544,10 @@ STUBS = ["clock: time.perf_counter inside esrally.client.context / time.time ins
          "wire requests are calls of on_request_start/on_request_end as the transport makes them"]
 
 HARNESSES = [
+    Harness("composite_failing_stream", composite_failing_stream, "bounded-exhaustive", lambda tier: [{"operation_after_the_streams": False}, {"operation_after_the_streams": True}],
+            reads=READS + [runner.Composite.__call__, runner.Composite.run_stream], stubs=STUBS + ["runner_for inside esrally.driver.runner returns gated stub runners, one of which fails"],
+            bounds={"structure": "two concurrent single-operation streams (one fails), optionally followed by an operation", "interleavings": "every order of start/end events"},
+            doc="a failing stream does not leave sibling requests on the wire when the logical request ends"),
     Harness("composite_two_clients", composite_two_clients, "symbolic", lambda tier: [{}],
             reads=READS + [runner.Composite.__call__, runner.Composite.run_stream], stubs=STUBS + ["runner_for inside esrally.driver.runner returns gated stub runners"],
             bounds={"clients": "2 sharing one Composite runner object and one request structure", "interleavings": "every order of the two sub-requests' start/end events"},
